@@ -46,6 +46,10 @@ pub enum RcOp
     GcFaultOn(u8),
     /// spawn `.0` fresh entities, prepare each and drop the signal at once: several entities wait for one pass
     Burst(u8),
+    /// `.0` x 16 fresh entities with exactly two clones each; two threads drop one clone of every entity in lock-step
+    /// (barrier, same order), so the last two clones of each entity are dropped as simultaneously as the machine
+    /// allows; one collection afterwards must take every one of them
+    Race(u8),
 }
 
 thread_local!
@@ -362,6 +366,36 @@ fn run_inner(case: &RcCase, out: &mut RcOutcome)
                 }
                 hit(out, "C10:burst");
             }
+            RcOp::Race(k) =>
+            {
+                let n = 16 * (*k as usize).clamp(1, 4);
+                let fresh: Vec<Entity> = (0..n).map(|_| app.world_mut().spawn_empty().id()).collect();
+                let (mut left, mut right) = (Vec::with_capacity(n), Vec::with_capacity(n));
+                for e in fresh.iter()
+                {
+                    let sig = app.world().resource::<AutoDespawner>().prepare(*e);
+                    right.push(sig.clone());
+                    left.push(sig);
+                }
+                let barrier = std::sync::Barrier::new(2);
+                std::thread::scope(|scope| {
+                    for set in [left, right]
+                    {
+                        let barrier = &barrier;
+                        scope.spawn(move || { barrier.wait(); for sig in set { drop(sig); } });
+                    }
+                });
+                garbage_collect_entities(app.world_mut());
+                gcs += 1;
+                m.gc();
+                m.settle_either(&|e| app.world().get_entity(ents[e]).is_ok());
+                let leaked = fresh.iter().filter(|e| app.world().get_entity(**e).is_ok()).count();
+                if leaked > 0
+                {
+                    out.violations.push(format!("op {i}: {leaked} of {n} entities whose two signal clones were dropped on two threads at the same time were not despawned by the next collection"));
+                }
+                hit(out, "C10:two_clones_dropped_concurrently");
+            }
             RcOp::GcFault | RcOp::GcFaultOn(_) =>
             {
                 if let RcOp::GcFaultOn(pick) = op
@@ -535,7 +569,7 @@ pub fn decode(bytes: &[u8], max_ops: usize, threads: bool) -> RcCase
     let n_ops = below(byte(&mut u), max_ops + 1);
     for _ in 0..n_ops
     {
-        let k = below(byte(&mut u), 34);
+        let k = below(byte(&mut u), 36);
         let a = byte(&mut u) % 12;
         let b = byte(&mut u) % 12;
         let op = match k
@@ -554,6 +588,7 @@ pub fn decode(bytes: &[u8], max_ops: usize, threads: bool) -> RcCase
             29 => RcOp::GcFault,
             30 | 31 => RcOp::GcFaultOn(a),
             32 | 33 => RcOp::Burst(b),
+            34 | 35 => if threads { RcOp::Race(1 + b % 4) } else { RcOp::Gc },
             21 | 22 | 23 => RcOp::StoreOn(a, b),
             _ =>
             {
